@@ -451,6 +451,15 @@ int register_mod_src(m_mod_t *mod, m_src_types type, const void *src_data,
         }
         return !ret ? 0 : -errno;
     }
+    /*
+     * Registration refused (eg: already registered): it must leave no trace.
+     * The discarded source never owned the user's fd nor the user's data:
+     * only release what we created ourselves (the dup'd fd/path).
+     */
+    if (!(src->flags & M_SRC_DUP)) {
+        src->flags &= ~M_SRC_FD_AUTOCLOSE;
+    }
+    src->flags &= ~M_SRC_AUTOFREE;
     m_mem_unref(src);
     return ret;
 }
